@@ -60,7 +60,7 @@ func c07Registered(cfg []c07Entry) map[string]c07Entry {
 	return m
 }
 
-var c07Variants = []string{"own-name", "absent", "null", "unknown-url", "other-builtin-name", "ext0-name", "ext1-name", "own-tag-ext-name", "both-keys", "wrong-type", "own-name-json-escaped", "own-name-respelled", "refused-registration-name", "own-name-key-long-head", "unknown-url-key-long-head", "own-name+other-name-under-congruent-key", "own-name-indefinite-length-map", "unknown-url-indefinite-length-map", "key-265-twice:unknown-then-registered+wide-key", "key-265-twice:unknown-then-null", "absent+unknown-name-under-wide-congruent-key-after-1b"}
+var c07Variants = []string{"own-name", "absent", "null", "unknown-url", "other-builtin-name", "ext0-name", "ext1-name", "own-tag-ext-name", "both-keys", "wrong-type", "own-name-json-escaped", "own-name-respelled", "refused-registration-name", "own-name-key-long-head", "unknown-url-key-long-head", "own-name+other-name-under-congruent-key", "own-name-indefinite-length-map", "unknown-url-indefinite-length-map", "key-265-twice:unknown-then-registered+wide-key", "key-265-twice:unknown-then-null", "absent+unknown-name-under-wide-congruent-key-after-1b", "own-name-trailing-nul", "own-name-trailing-space"}
 
 type c07Token struct {
 	shape      int  // key family of the claims in the token
@@ -124,6 +124,10 @@ func c07Build(shape int, valid bool, variant int) *c07Token {
 		t.ownVal = c07Respell(own)
 	case "refused-registration-name":
 		t.ownVal = c07Refused.name
+	case "own-name-trailing-nul":
+		t.ownVal = own + "\x00"
+	case "own-name-trailing-space":
+		t.ownVal = own + " "
 	}
 	tree := wireTree(&a, true)
 	var m map[string]any
